@@ -26,7 +26,7 @@ def jobs(tier, seed):
     F = []
     if tier == "quick":
         # truncation points of each file are split into 6 ranges explored by parallel jobs
-        for ver, feat in ((fmfile.SSE, fmfile.SKIN), (fmfile.FO4, fmfile.EXTRA | fmfile.SEGMENTS | fmfile.SKIN), (fmfile.OB, fmfile.SKIN | fmfile.COLL)):
+        for ver, feat in ((fmfile.SSE, fmfile.SKIN), (fmfile.FO4, fmfile.EXTRA | fmfile.SEGMENTS | fmfile.SKIN), (fmfile.OB, fmfile.SKIN | fmfile.COLL | fmfile.STRIPPART), (fmfile.SK, fmfile.STRIPS)):
             for seg in range(5):
                 F.append(dict(entry="h_file_trunc", args=[ver, feat, 1, seg, 5], budget=90, mod="fmfile", huge_alloc_is_violation=True, throw_is_violation=True, stubs=["bsphere"]))
     else:
